@@ -100,6 +100,7 @@ type runCtx struct {
 	emptied       bool // the container went from non-empty to empty
 	widthEdited   bool // a column edit changed the length
 	invalidations int
+	curOp         string
 	// the container the current one was cloned (or un-aligned) from, with its model at that time
 	srcSb    align.SeqBag
 	srcM     *model
@@ -202,6 +203,7 @@ func cutoffOf(k int) (quarters int, value float64) {
 // step executes one operation. It returns executed=false when the operation was drawn out
 // (a corner that neither the documentation nor the pinned tests define).
 func (c *runCtx) step(op opRec) (executed bool, err error) {
+	c.curOp = op.Op
 	m := c.m
 	n := len(m.rows)
 	l := m.length()
@@ -519,6 +521,11 @@ func (c *runCtx) step(op opRec) (executed bool, err error) {
 		return true, nil
 
 	case "shuffle":
+		if coll {
+			// which of several rows sharing a name the name designates after a reordering is not
+			// defined (the name index keeps its row, GetSequenceIdByName finds the first in the new order)
+			return c.skip("shuffle", "name-collision")
+		}
 		rand.Seed(op.Seed)
 		c.sb.ShuffleSequences()
 		got := snapshot(c.sb)
@@ -1157,6 +1164,7 @@ func (c *runCtx) noteRename(changed, collBefore bool) {
 	}
 	if !collBefore && c.m.collided() {
 		c.o.Class("collision-created")
+		c.o.Class("collision-created-by=%s", c.curOp)
 	}
 }
 
